@@ -77,7 +77,7 @@ Check C05_reemit_identity : forall nanfix dofix id e v,
 Print Assumptions C05_reemit_identity.
 
 (* ------------------------------------------------------------------------------------------ *)
-Require Import Blots.proofs.EmitSound Blots.EvalInst.
+Require Import Blots.proofs.EmitSound Blots.proofs.LfInst Blots.EvalInst.
 
 (* P2, first-order part (the repaired inlining, dofix = true).  A call of a closure and a call of
    its reloaded emission give the SAME outcome and the SAME store — at every call depth d, from
@@ -135,10 +135,43 @@ Example C05_emit_equiv_premises_example :
   free_vars f50_body (map arg_name [AReq "x"%string] ++ map fst [("k"%string, VNum (nb 0x4014000000000000))]) = [].
 Proof. vm_compute. split; reflexivity. Qed.
 
-(* kept, not proved: the transcribed operators and built-ins (EvalInst.v) respect lambda-free
-   values.  They only apply the callback to functions found among their arguments; a proof is a
-   case analysis over Binop.v / Builtins*.v.  Exercised by the EMIT behaviour correspondence. *)
-Definition C05_impl_respecting_inst_full : Prop := impl_lf_respecting binop_impl builtin_impl.
+(* The transcribed operators and built-ins of EvalInst.v DO satisfy that hypothesis (LfInst.v: an
+   instance of GenOps.v, the parametricity proof of ClosedOps.v for an arbitrary value predicate) ... *)
+Theorem C05_impl_respecting_inst : impl_lf_respecting binop_impl builtin_impl.
+Proof. exact impl_lf_respecting_inst. Qed.
+Check C05_impl_respecting_inst : impl_lf_respecting binop_impl builtin_impl.
+Print Assumptions C05_impl_respecting_inst.
+
+(* ... so for the evaluator the first-order equivalence holds without any hypothesis on the
+   implementations *)
+Theorem C05_emit_equiv_first_order_evaluator :
+  forall release nanfix d fr fr' this this' id id' params body sv args st,
+    first_order_body body = true ->
+    free_vars body (map arg_name params ++ map fst sv) = [] ->
+    forallb (fun kv => emittable_gen (snd kv)) sv = true ->
+    (forall x, special_name x = true -> rec_get sv x = None) ->
+    (forall x, In x (map arg_name params) -> rec_get sv x = None) ->
+    rec_get sv "inputs"%string = None ->
+    (forall n, lam_name st id = Some n -> rec_get sv n = None) ->
+    lfs args = true ->
+    AD release binop_impl builtin_impl d fr this (VLam id params body sv) args st =
+    AD release binop_impl builtin_impl d fr' this'
+       (VLam id' params (subst true (scope_map nanfix true sv) body) []) args st.
+Proof. intros release. exact (emit_equiv_first_order release binop_impl builtin_impl impl_lf_respecting_inst). Qed.
+Check C05_emit_equiv_first_order_evaluator :
+  forall release nanfix d fr fr' this this' id id' params body sv args st,
+    first_order_body body = true ->
+    free_vars body (map arg_name params ++ map fst sv) = [] ->
+    forallb (fun kv => emittable_gen (snd kv)) sv = true ->
+    (forall x, special_name x = true -> rec_get sv x = None) ->
+    (forall x, In x (map arg_name params) -> rec_get sv x = None) ->
+    rec_get sv "inputs"%string = None ->
+    (forall n, lam_name st id = Some n -> rec_get sv n = None) ->
+    lfs args = true ->
+    AD release binop_impl builtin_impl d fr this (VLam id params body sv) args st =
+    AD release binop_impl builtin_impl d fr' this'
+       (VLam id' params (subst true (scope_map nanfix true sv) body) []) args st.
+Print Assumptions C05_emit_equiv_first_order_evaluator.
 
 (* kept, not proved: the full property — any closed-after-capture function (higher-order
    captured values, bodies that create closures) and its reloaded emission are observationally
